@@ -57,6 +57,11 @@ def run(ctx):
         ctx.algnames = A.names
         rng = random.Random(ctx.seed * 29 + 7)
         ps = [problems.gen_problem(rng, A) for _ in range(2500 if ctx.thorough else 600)]
+        # the seed value 0 is a seed like any other (nlopt_srand(0) must make the run reproducible)
+        for nm in problems.GLOBAL + problems.MLSL + ["NLOPT_LN_PRAXIS"]:
+            p = problems.gen_problem(rng, A, alg_name=nm, box="finite", with_constraints=False)
+            p["seed"] = 0
+            ps.append(p)
         # error paths too
         for nm in problems.ALL[:20]:
             p = problems.gen_problem(rng, A, alg_name=nm)
